@@ -6,7 +6,9 @@ PROPS_MODULE = "Q1t.Props.C10"
 
 
 def run(ctx):
-    vlib.prove(ctx, PROPS_MODULE, [], ["draws_prefix", "same_prefix_same_result", "run_append"])
+    vlib.translate(ctx, ["AmbientSites"])
+    vlib.prove(ctx, PROPS_MODULE, [], ["draws_prefix", "same_prefix_same_result", "run_append", "ambient_sites_as_expected",
+                                         "seeded_paths_have_no_ambient_site"])
     reqs = impl = []
     if vlib.cargo_build(ctx, "c10"):
         rc, out = vlib.run_harness(ctx, "c10")
@@ -33,7 +35,8 @@ def run(ctx):
         "exhaustive": False,
     })
     ctx.assumptions += [
-        "PARTIAL: that the Rust code consults no ambient generator / randomly seeded hasher / thread or process state is observed by the "
-        "harness, not proved; the theorems state the structural determinism of the model (tied to the code by the C01/C02 trace correspondence)",
+        "PARTIAL: that the Rust code consults no ambient generator / randomly seeded hasher / thread or process state is established by a "
+        "syntactic scan of the source regenerated on every run (theorem ambient_sites_as_expected: token-level, macros and dependencies "
+        "are not expanded) and observed by the harness, not proved semantically; the theorems state the structural determinism of the model (tied to the code by the C01/C02 trace correspondence)",
         "iteration order of the identity-hashed count map in measure_all is an oracle in the model; its determinism is covered by the runtime comparison only",
     ]
